@@ -226,11 +226,10 @@ Lemma exec_update ord d t tb rows vals u p s st' :
 Proof.
   intros Ht. unfold steps_of. rewrite Ht. destruct (bool_decide (Forall _ rows)) eqn:Er; [|discriminate].
   apply bool_decide_eq_true in Er. unfold update_steps.
-  destruct (bool_decide (length (known_prefix tb vals) = length vals)) eqn:Ek.
-  - apply bool_decide_eq_true in Ek. apply known_prefix_len in Ek. rewrite (known_prefix_all _ _ Ek).
-    rewrite exec_write_cols. simpl. intros [= <-]. split; [exact Er|]. split; [exact Ek|].
-    unfold on_doc. simpl. rewrite (upd_table_tset _ _ _ _ Ht). reflexivity.
-  - rewrite exec_all_snoc_fail. discriminate.
+  destruct (bool_decide (length (known_prefix tb vals) = length vals)) eqn:Ek; [|discriminate].
+  apply bool_decide_eq_true in Ek. apply known_prefix_len in Ek. simpl.
+  rewrite <- (app_nil_r (concat _)). rewrite exec_write_cols. simpl. intros [= <-]. split; [exact Er|]. split; [exact Ek|].
+  unfold on_doc. simpl. rewrite (upd_table_tset _ _ _ _ Ht). reflexivity.
 Qed.
 
 (* BulkAddRecord *)
@@ -725,8 +724,9 @@ Lemma exec_update_ok ord d t tb rows vals u p s :
   = Some (MState (tset t (write_cols rows vals tb) d) (u ++ [BulkUpdateRecord t rows (update_undo tb rows vals)]) p s).
 Proof.
   intros Ht Hr Hk. unfold steps_of. rewrite Ht. rewrite bool_decide_eq_true_2 by exact Hr. unfold update_steps.
-  rewrite (known_prefix_all _ _ Hk). rewrite bool_decide_eq_true_2 by reflexivity.
-  rewrite exec_write_cols. simpl. unfold on_doc. simpl. rewrite (upd_table_tset _ _ _ _ Ht). reflexivity.
+  rewrite (known_prefix_all _ _ Hk). rewrite bool_decide_eq_true_2 by reflexivity. simpl.
+  rewrite <- (app_nil_r (concat _)). rewrite exec_write_cols. simpl. unfold on_doc. simpl.
+  rewrite (upd_table_tset _ _ _ _ Ht). reflexivity.
 Qed.
 
 Lemma exec_add_ok ord d t tb rows vals u p s :
